@@ -335,7 +335,8 @@ pub fn hostile_case(rng: &mut Rng) -> Case {
             injected += 1;
             match g.rng.below(8) {
                 0 => {
-                    let k = *g.rng.pick(&[FaultKind::ReadEof, FaultKind::ReadErr]);
+                    let glitch = FaultKind::ReadGlitch { kind: g.rng.below(4) as u8 };
+                    let k = g.rng.pick(&[FaultKind::ReadEof, FaultKind::ReadErr, glitch]).clone();
                     // cut inside a packet: deliver a prefix of something first
                     if g.rng.coin() {
                         let kind = *g.rng.pick(SERVER_KINDS);
@@ -411,6 +412,49 @@ pub fn systematic(thorough: bool, seed: u64) -> Vec<Case> {
             cases.push(Case { scenario: Scenario { config: config.clone(), steps }, aux: None, profile: "hostile/large-valid-packets", gen_hash: None, systematic: true });
         }
     }
+    // every value of the reason byte, for every packet type that has one, in the short form
+    // (reason only) and the long form (reason + empty property list), in both phases: reason
+    // codes the standard does not define for that packet, or defines for the other direction
+    // only, are input like any other
+    {
+        let id = [0x00u8, 0x01];
+        let with_reason: [(u8, &[u8]); 8] = [
+            (0x40, &id), (0x50, &id), (0x62, &id), (0x70, &id), // PUBACK PUBREC PUBREL PUBCOMP
+            (0xe0, &[]), (0xf0, &[]),                           // DISCONNECT AUTH
+            (0x90, &id), (0xb0, &id),                           // SUBACK UNSUBACK (reason in the payload)
+        ];
+        let stride = if thorough { 1 } else { 1 };
+        for (first, head) in with_reason {
+            for r in (0u16..=255).step_by(stride) {
+                let r = r as u8;
+                for long in [false, true] {
+                    let mut body = head.to_vec();
+                    if first == 0x90 || first == 0xb0 {
+                        body.push(0); // property length, then the reason code as payload
+                        body.push(r);
+                        if long {
+                            body.push(r);
+                        }
+                    } else {
+                        body.push(r);
+                        if long {
+                            body.push(0);
+                        }
+                    }
+                    let t = reframe(first, &body);
+                    cases.push(mk(&run_prefix, t.clone(), liveness.clone()));
+                    if matches!(first, 0xe0 | 0xf0) || r % 16 == 4 {
+                        cases.push(mk(&connect_prefix, t, vec![]));
+                    }
+                }
+            }
+        }
+        // CONNACK: every reason byte as first response (flags 0, reason, no properties)
+        for r in 0u16..=255 {
+            cases.push(mk(&connect_prefix, reframe(0x20, &[0, r as u8, 0]), vec![]));
+            cases.push(mk(&run_prefix, reframe(0x20, &[0, r as u8, 0]), vec![]));
+        }
+    }
     let samples = if thorough { 6 } else { 2 };
     for &k in SERVER_KINDS {
         for _ in 0..samples {
@@ -453,11 +497,15 @@ pub fn systematic(thorough: bool, seed: u64) -> Vec<Case> {
     ];
     let blob: Vec<u8> = inbound.iter().flatten().copied().collect();
     for cut in 0..=blob.len() {
-        for kind in [FaultKind::ReadEof, FaultKind::ReadErr] {
+        for kind in [FaultKind::ReadEof, FaultKind::ReadErr, FaultKind::ReadGlitch { kind: (cut % 4) as u8 }] {
             let mut steps = run_prefix.clone();
             if cut > 0 {
                 steps.push(Step::Broker { pkt: BrokerPkt::Raw(blob.clone()), chunks: Chunks::Sizes(vec![cut]), hold: true });
                 steps.push(Step::Deliver { n: 1 });
+            }
+            if matches!(kind, FaultKind::ReadGlitch { .. }) {
+                // the rest of the stream is readable right behind the transient error
+                steps.push(Step::Deliver { n: usize::MAX });
             }
             steps.push(Step::Fault(kind));
             steps.push(Step::Settle { seed: 4 });
